@@ -341,6 +341,31 @@ def micro_scenarios():
         "conns": [_c("W", "po", "E", "ti", weak=True), _c("E", "po", "C", "mi"),
                   _c("C", "po", "E", "mi", shift=1, init=True)],
         "until": 4}
+    # value shapes: measurements that are falsy JSON values (an explicit None, 0, "", False, [], {}) between ordinary
+    # ones, read by a faster and a slower consumer
+    out["falsy_measurements"] = {
+        "tree": ["A", "B", "C"],
+        "sims": [_sim("A", "time-based", steps=[1], vstyle="falsy"), _sim("B", "time-based", steps=[1]),
+                 _sim("C", "time-based", steps=[2])],
+        "conns": [_c("A", "po", "B", "mi"), _c("A", "po", "C", "mi")], "until": 8}
+    # a measurement from a tiny domain (repeats in consecutive steps, returns to old values), producer slower
+    out["repeating_measurements"] = {
+        "tree": ["A", "B"],
+        "sims": [_sim("A", "time-based", steps=[2, 1], vstyle="small"), _sim("B", "time-based", steps=[1])],
+        "conns": [_c("A", "po", "B", "mi")], "until": 9}
+    # JSON objects whose key sets change from step to step, as measurement and as event
+    out["object_values"] = {
+        "tree": ["A", "B"],
+        "sims": [_sim("A", "hybrid", steps=[1], emit=[1], vstyle="dict"), _sim("B", "hybrid", steps=[2], emit=[0])],
+        "conns": [_c("A", "po", "B", "mi"), _c("A", "eo", "B", "ti")], "until": 6}
+    # the scenario script queries the (constant) measurement with World.get_data() before run(), and connects
+    # inside the still open group block
+    out["constant_measurement_queried_before_run"] = {
+        "tree": [["A", "B"], "C"],
+        "sims": [_sim("A", "time-based", steps=[2], const_po=True), _sim("B", "time-based", steps=[1]),
+                 _sim("C", "time-based", steps=[1])],
+        "conns": [_c("A", "po", "B", "mi"), _c("A", "po", "C", "mi")], "until": 5,
+        "script": {"pre_get_data": True, "connect_early": True}}
     for s in out.values():
         s.setdefault("initial_events", {})
         s.setdefault("world", {"cache": True})
